@@ -473,8 +473,8 @@ PROPS = {
                     'Non-trivial = distinct operations (tree stage) / distinct episodes containing updates and removals (random stage).',
             'assumptions': COMMON_ASSUMPTIONS},
     'C14': {'level': 'model_checking', 'stages': [VAL_MC, VAL_RANDOM], 'nontrivial_case': nt_val,
-            'rule': 'MC_Values: the complete state graph of a 3-slot object store over 11 values (empty packet, zero-length '
-                    'payloads of two types, data packet, one payload byte changed, one header field changed, another message type, invalid-typed payload, status packets with one-byte payloads) '
+            'rule': 'MC_Values: the complete state graph of a 3-slot object store over 12 values (empty packet, zero-length '
+                    'payloads of two types, data packet, one payload byte changed, timestamp changed, interface id changed, another message type, invalid-typed payload, status packets with one-byte payloads) '
                     'under make / copy-construct / move-construct / copy-assign (incl. self and equal-looking targets) / '
                     'move-assign / mutate / equality; one path per transition replayed on real Packet objects with full snapshots '
                     'of every slot after every operation; plus seeded random sequences on Packet, Payload and TECMP::Payload '
